@@ -673,38 +673,90 @@ theorem C12_serial_expired_not_written (s : Serial.St) (id : Nat) (r : Conn) (hp
   · simp
 
 open Scales.Serial Scales.Transport in
-/-- Serial transport hop (in flight): when the transaction's timeout fires, the transaction is
-    gone; a step of the transport can put a frame on the wire only for the transaction in
-    flight, so nothing of that request is written afterwards. -/
+/-- Serial transport hop (in flight): when the transaction's timeout fires (and the re-connect of
+    the handler concludes at once), the transaction is gone; a step of the transport can put a
+    frame on the wire only for the transaction in flight, so nothing of that request is written
+    afterwards. -/
 theorem C12_serial_timeout_ends_transaction (s : Serial.St) (r : Conn) (t : Txn)
-    (hp : s.processing = some t) (hd : t.hasDl = true) :
+    (hp : s.processing = some t) (hd : t.hasDl = true) (hph : t.phase ≠ .reconn) :
     (s.timeoutHere r).1.processing = none ∧ (s.timeoutHere r).2.sent = [] ∧
     (∀ o, ((s.timeoutHere r).1.io o).2.sent = []) := by
+  have hb : (t.hasDl && t.phase != .reconn) = true := by simp [hd, hph]
   have h1 : (s.timeoutHere r).1.processing = none := by
     unfold Serial.St.timeoutHere Serial.St.txnTimeout
-    simp only [hp, hd, if_true]
+    simp only [hp, hb, if_true]
     split
     · cases r <;> simp [Serial.St.fault] <;> split <;> simp
     · simp
   refine ⟨h1, ?_, ?_⟩
-  · unfold Serial.St.timeoutHere; simp [hp, hd]
+  · unfold Serial.St.timeoutHere; simp [hp, hb]
   · intro o; unfold Serial.St.io; simp [h1]
+
+open Scales.Serial Scales.Transport in
+/-- Serial transport hop, the re-connect of the time-out handler takes time: from the moment the
+    transaction's deadline has passed (its timeout fired, or it was expired at the pre-write
+    check) it is blocked in the re-connect, and whatever happens then — I/O outcomes, further
+    requests, the re-connect concluding either way, `Close()` — no frame is written, and the
+    transaction is either still blocked there or gone.  (So the request handed its TimeoutError
+    when the re-connect concludes has not been written meanwhile, and is not afterwards.) -/
+theorem C12_serial_reconnecting_never_writes (s : Serial.St) (t : Txn) (op : Serial.Op)
+    (hp : s.processing = some t) (hph : t.phase = .reconn) :
+    (Serial.stepOut s op).2.sent = [] ∧
+    ((Serial.stepOut s op).1.processing = none ∨ (Serial.stepOut s op).1.processing = some t) := by
+  obtain ⟨cs, so, ores, pr⟩ := s
+  simp only at hp; subst hp
+  obtain ⟨tid, thd, tph⟩ := t
+  simp only at hph; subst hph
+  cases op with
+  | openT r =>
+    cases r <;> cases ores <;>
+      simp [Serial.stepOut, Serial.St.openT, Serial.St.openImpl, Serial.St.fault, Serial.St.close] <;>
+      (try split) <;> simp
+  | req id dl => simp [Serial.stepOut, Serial.St.request]
+  | io o => simp [Serial.stepOut, Serial.St.io]
+  | timeoutHere r => simp [Serial.stepOut, Serial.St.timeoutHere]
+  | timeoutBlock => simp [Serial.stepOut, Serial.St.timeoutBlock]
+  | reconn r => simp [Serial.stepOut, Serial.St.reconnDone]
+  | close => simp [Serial.stepOut, Serial.St.close]
+  | look => simp [Serial.stepOut]
+
+open Scales.Serial Scales.Transport in
+/-- the two ways into that state write nothing either: the timeout firing with a re-connect that
+    takes time, and a request already expired at the pre-write check -/
+theorem C12_serial_timeout_block_not_written (s : Serial.St) (id : Nat) :
+    (s.timeoutBlock).2.sent = [] ∧ (s.request id .pastBlock).2.sent = [] ∧
+    (∀ t', (s.timeoutBlock).1.processing = some t' → s.processing ≠ some t' → t'.phase = .reconn) ∧
+    (∀ t', s.processing = none → (s.request id .pastBlock).1.processing = some t' → t'.phase = .reconn) := by
+  obtain ⟨cs, so, ores, pr⟩ := s
+  refine ⟨?_, ?_, ?_, ?_⟩
+  · cases pr with
+    | none => simp [Serial.St.timeoutBlock]
+    | some t => simp [Serial.St.timeoutBlock]; split <;> simp
+  · cases pr <;> simp [Serial.St.request]
+  · intro t'
+    cases pr with
+    | none => simp [Serial.St.timeoutBlock]
+    | some t =>
+      simp only [Serial.St.timeoutBlock, Serial.St.txnTimeoutStart]
+      split
+      · cases so <;> simp
+        intro h _; rw [← h]
+      · intro h1 h2; exact absurd h1 h2
+  · intro t' hp
+    simp only at hp; subst hp
+    cases so <;> simp [Serial.St.request, Serial.St.txnTimeoutStart]
+    intro h; rw [← h]
 
 open Scales.Serial in
 /-- a frame reaches the peer only in an `io ok` step of a transaction blocked in its write -/
 theorem C12_serial_writes_only_in_flight (s : Serial.St) (o : Transport.IOOut) (id : Nat)
     (h : id ∈ (s.io o).2.sent) : ∃ t, s.processing = some t ∧ t.id = id ∧ t.phase = .write := by
-  unfold Serial.St.io at h
-  split at h
-  · simp at h
-  · rename_i t ht
-    split at h
-    · simp [Serial.St.txnFail] at h
-    · simp [Serial.St.txnFail] at h
-    · split at h
-      · simp at h; exact ⟨t, ht, h.symm, by assumption⟩
-      · simp at h
-      · simp at h
+  obtain ⟨cs, so, ores, pr⟩ := s
+  cases pr with
+  | none => simp [Serial.St.io] at h
+  | some t =>
+    cases o <;> cases hp : t.phase <;> simp [Serial.St.io, hp, Serial.St.txnFail] at h
+    exact ⟨t, rfl, h.symm, hp⟩
 
 open Scales.Watermark in
 /-- Pool hop: a waiter that completed (timed out) while queued is skipped by the hand-off and
@@ -725,7 +777,7 @@ namespace SerialSpec
 open Scales.Serial Scales.Transport
 
 theorem sent_in_flight (s : Serial.St) (op : Serial.Op) (id : Nat) (h : id ∈ (Serial.stepOut s op).2.sent) :
-    ∃ t, s.processing = some t ∧ t.id = id := by
+    ∃ t, s.processing = some t ∧ t.id = id ∧ t.phase ≠ .reconn := by
   obtain ⟨cs, so, ores, pr⟩ := s
   cases op with
   | openT r => simp [Serial.stepOut] at h
@@ -734,7 +786,15 @@ theorem sent_in_flight (s : Serial.St) (op : Serial.Op) (id : Nat) (h : id ∈ (
   | timeoutHere r =>
     cases pr with
     | none => simp [Serial.stepOut, Serial.St.timeoutHere] at h
-    | some t => cases hd : t.hasDl <;> simp [Serial.stepOut, Serial.St.timeoutHere, hd] at h
+    | some t => simp [Serial.stepOut, Serial.St.timeoutHere] at h; split at h <;> simp at h
+  | timeoutBlock =>
+    cases pr with
+    | none => simp [Serial.stepOut, Serial.St.timeoutBlock] at h
+    | some t => simp [Serial.stepOut, Serial.St.timeoutBlock] at h; split at h <;> simp at h
+  | reconn r =>
+    cases pr with
+    | none => simp [Serial.stepOut, Serial.St.reconnDone] at h
+    | some t => simp [Serial.stepOut, Serial.St.reconnDone] at h; split at h <;> simp at h
   | req id' dl =>
     cases pr with
     | some t => simp [Serial.stepOut, Serial.St.request] at h
@@ -745,12 +805,12 @@ theorem sent_in_flight (s : Serial.St) (op : Serial.Op) (id : Nat) (h : id ∈ (
     | none => simp [Serial.stepOut, Serial.St.io] at h
     | some t =>
       cases o <;> cases hp : t.phase <;> simp [Serial.stepOut, Serial.St.io, hp] at h
-      exact ⟨t, rfl, h.symm⟩
+      exact ⟨t, rfl, h.symm, by simp [hp]⟩
 
 theorem timeout_ends (s : Serial.St) (op : Serial.Op) (id : Nat)
     (h : id ∈ SerialC12.timeoutsIn (Serial.stepOut s op).2.eff.dels) :
     (Serial.stepOut s op).1.processing = none ∧
-    ((∃ t, s.processing = some t ∧ t.id = id) ∨ (∃ r, op = .req id (.past r) ∧ s.processing = none)) := by
+    ((∃ t, s.processing = some t ∧ t.id = id) ∨ (∃ dl, op = .req id dl ∧ s.processing = none)) := by
   obtain ⟨cs, so, ores, pr⟩ := s
   unfold SerialC12.timeoutsIn at h
   cases op with
@@ -764,11 +824,25 @@ theorem timeout_ends (s : Serial.St) (op : Serial.Op) (id : Nat)
     cases pr with
     | none => simp [Serial.stepOut, Serial.St.timeoutHere] at h
     | some t =>
-      cases hd : t.hasDl
-      · simp [Serial.stepOut, Serial.St.timeoutHere, hd] at h
-      · cases so <;> cases r <;>
-          simp [Serial.stepOut, Serial.St.timeoutHere, hd, Serial.St.txnTimeout, Serial.St.fault] at h ⊢ <;>
-          (try split) <;> simp_all
+      obtain ⟨tid, thd, tph⟩ := t
+      cases thd <;> cases tph <;> cases so <;> cases r <;>
+        simp [Serial.stepOut, Serial.St.timeoutHere, Serial.St.txnTimeout, Serial.St.fault] at h ⊢ <;>
+        (try split) <;> simp_all
+  | timeoutBlock =>
+    cases pr with
+    | none => simp [Serial.stepOut, Serial.St.timeoutBlock] at h
+    | some t =>
+      obtain ⟨tid, thd, tph⟩ := t
+      cases thd <;> cases tph <;> cases so <;>
+        simp [Serial.stepOut, Serial.St.timeoutBlock, Serial.St.txnTimeoutStart] at h ⊢ <;> simp_all
+  | reconn r =>
+    cases pr with
+    | none => simp [Serial.stepOut, Serial.St.reconnDone] at h
+    | some t =>
+      obtain ⟨tid, thd, tph⟩ := t
+      cases tph <;> cases r <;>
+        simp [Serial.stepOut, Serial.St.reconnDone, Serial.St.fault] at h ⊢ <;>
+        (try split) <;> simp_all
   | req id' dl =>
     cases pr with
     | some t => simp [Serial.stepOut, Serial.St.request] at h
@@ -782,6 +856,9 @@ theorem timeout_ends (s : Serial.St) (op : Serial.Op) (id : Nat)
         cases so <;> cases r <;>
           simp [Serial.stepOut, Serial.St.request, Serial.St.txnTimeout, Serial.St.fault] at h ⊢ <;>
           (try split) <;> simp_all
+      | pastBlock =>
+        cases so <;>
+          simp [Serial.stepOut, Serial.St.request, Serial.St.txnTimeoutStart] at h ⊢ <;> simp_all
   | io o =>
     cases pr with
     | none => simp [Serial.stepOut, Serial.St.io] at h
@@ -790,9 +867,14 @@ theorem timeout_ends (s : Serial.St) (op : Serial.Op) (id : Nat)
         simp [Serial.stepOut, Serial.St.io, hp, Serial.St.txnFail, Serial.St.fault] at h <;>
         (try (split at h <;> simp at h))
 
+/-- where the transaction in flight after a step comes from: it was in flight before (and if it
+    is not blocked in the re-connect now, it was not before), or it is the request just issued
+    (and if that was already expired, it is blocked in the re-connect) -/
 theorem processing_origin (s : Serial.St) (op : Serial.Op) (t' : Txn)
     (h : (Serial.stepOut s op).1.processing = some t') :
-    (∃ t, s.processing = some t ∧ t.id = t'.id) ∨ (∃ dl, op = .req t'.id dl ∧ s.processing = none) := by
+    (∃ t, s.processing = some t ∧ t.id = t'.id ∧ (t'.phase ≠ .reconn → t.phase ≠ .reconn)) ∨
+    (∃ dl, op = .req t'.id dl ∧ s.processing = none ∧
+      (SerialC12.expiredOf op ≠ [] → t'.phase = .reconn)) := by
   obtain ⟨cs, so, ores, pr⟩ := s
   cases op with
   | openT r =>
@@ -800,30 +882,51 @@ theorem processing_origin (s : Serial.St) (op : Serial.Op) (t' : Txn)
       simp_all [Serial.stepOut, Serial.St.openT, Serial.St.openImpl, Serial.St.fault, Serial.St.close] <;>
       (try (split at h <;> simp_all [Serial.St.close]))
   | close => simp [Serial.stepOut, Serial.St.close] at h
-  | look => left; exact ⟨t', by simpa [Serial.stepOut] using h, rfl⟩
+  | look => left; exact ⟨t', by simpa [Serial.stepOut] using h, rfl, id⟩
   | timeoutHere r =>
     cases pr with
     | none => simp [Serial.stepOut, Serial.St.timeoutHere] at h
     | some t =>
-      cases hd : t.hasDl
-      · left; simp [Serial.stepOut, Serial.St.timeoutHere, hd] at h; exact ⟨t, rfl, by rw [h]⟩
-      · cases so <;> cases r <;>
-          simp [Serial.stepOut, Serial.St.timeoutHere, hd, Serial.St.txnTimeout, Serial.St.fault] at h <;>
-          (try (split at h <;> simp at h))
+      obtain ⟨tid, thd, tph⟩ := t
+      left
+      cases thd <;> cases tph <;> cases so <;> cases r <;>
+        simp [Serial.stepOut, Serial.St.timeoutHere, Serial.St.txnTimeout, Serial.St.fault] at h <;>
+        (try (split at h <;> simp at h)) <;> (subst h; simp)
+  | timeoutBlock =>
+    cases pr with
+    | none => simp [Serial.stepOut, Serial.St.timeoutBlock] at h
+    | some t =>
+      obtain ⟨tid, thd, tph⟩ := t
+      left
+      cases thd <;> cases tph <;> cases so <;>
+        simp [Serial.stepOut, Serial.St.timeoutBlock, Serial.St.txnTimeoutStart] at h <;> (subst h; simp)
+  | reconn r =>
+    cases pr with
+    | none => simp [Serial.stepOut, Serial.St.reconnDone] at h
+    | some t =>
+      obtain ⟨tid, thd, tph⟩ := t
+      left
+      cases tph <;> cases r <;>
+        simp [Serial.stepOut, Serial.St.reconnDone, Serial.St.fault] at h <;>
+        (try (split at h <;> simp at h)) <;> (subst h; simp)
   | req id' dl =>
     cases pr with
-    | some t => left; simp [Serial.stepOut, Serial.St.request] at h; exact ⟨t, rfl, by rw [h]⟩
+    | some t => left; simp [Serial.stepOut, Serial.St.request] at h; exact ⟨t, rfl, by rw [h], by rw [h]; exact id⟩
     | none =>
       right
       cases dl with
       | none => cases so <;> simp [Serial.stepOut, Serial.St.request, Serial.St.txnFail, Serial.St.fault] at h <;>
-          (try (split at h <;> simp at h)) <;> exact ⟨_, by rw [← h], rfl⟩
+          (try (split at h <;> simp at h)) <;> exact ⟨_, by rw [← h], rfl, by simp [SerialC12.expiredOf]⟩
       | future => cases so <;> simp [Serial.stepOut, Serial.St.request, Serial.St.txnFail, Serial.St.fault] at h <;>
-          (try (split at h <;> simp at h)) <;> exact ⟨_, by rw [← h], rfl⟩
+          (try (split at h <;> simp at h)) <;> exact ⟨_, by rw [← h], rfl, by simp [SerialC12.expiredOf]⟩
       | past r =>
         cases so <;> cases r <;>
           simp [Serial.stepOut, Serial.St.request, Serial.St.txnTimeout, Serial.St.fault] at h <;>
           (try (split at h <;> simp at h))
+      | pastBlock =>
+        cases so <;>
+          simp [Serial.stepOut, Serial.St.request, Serial.St.txnTimeoutStart] at h
+        exact ⟨_, by rw [← h], rfl, by intro _; rw [← h]⟩
   | io o =>
     cases pr with
     | none => simp [Serial.stepOut, Serial.St.io] at h
@@ -831,11 +934,11 @@ theorem processing_origin (s : Serial.St) (op : Serial.Op) (t' : Txn)
       left
       cases o <;> cases hp : t.phase <;>
         simp [Serial.stepOut, Serial.St.io, hp, Serial.St.txnFail, Serial.St.fault] at h <;>
-        (try (split at h <;> simp at h)) <;> exact ⟨t, rfl, by rw [← h]⟩
+        (try (split at h <;> simp at h)) <;> exact ⟨t, rfl, by rw [← h], by rw [← h]; simp [hp]⟩
 
 structure Rel (a : SerialC12.Acc) (s : Serial.St) (seen : List Nat) : Prop where
   r1 : ∀ id ∈ a.timedOut, id ∈ seen
-  r2 : ∀ t, s.processing = some t → t.id ∈ seen ∧ t.id ∉ a.timedOut
+  r2 : ∀ t, s.processing = some t → t.id ∈ seen ∧ (t.phase ≠ .reconn → t.id ∉ a.timedOut)
 
 theorem specGo_ok : ∀ (ops : List Serial.Op) (a : SerialC12.Acc) (s : Serial.St) (seen : List Nat),
     Rel a s seen → Serial.opsOk s seen ops = true →
@@ -849,33 +952,7 @@ theorem specGo_ok : ∀ (ops : List Serial.Op) (a : SerialC12.Acc) (s : Serial.S
     obtain ⟨hen, hrest⟩ := hok
     simp only [TComp.trace, SerialC12.comp, Serial.step, SerialC12.specGo]
     have hsent := sent_in_flight s op
-    -- this step's verdict
-    have hv : SerialC12.specObs a op (Serial.obsOf (Serial.stepOut s op).1 (Serial.stepOut s op).2) = .ok := by
-      unfold SerialC12.specObs
-      have h1 : (Serial.obsOf (Serial.stepOut s op).1 (Serial.stepOut s op).2).sent.find?
-          (fun id => a.timedOut.contains id) = none := by
-        rw [List.find?_eq_none]
-        intro id hid
-        obtain ⟨t, ht, rfl⟩ := hsent id hid
-        simpa using (hrel.r2 t ht).2
-      rw [h1]
-      cases op with
-      | req id dl =>
-        cases dl with
-        | past r =>
-          have : ¬ id ∈ (Serial.obsOf (Serial.stepOut s (.req id (.past r))).1 (Serial.stepOut s (.req id (.past r))).2).sent := by
-            intro hid
-            obtain ⟨t, ht, hte⟩ := hsent id hid
-            have hs := (hrel.r2 t ht).1
-            simp only [Serial.enabled, Bool.not_eq_true', List.contains_eq_mem, decide_eq_false_iff_not] at hen
-            rw [hte] at hs; exact hen hs
-          simp [this]
-        | none => rfl
-        | future => rfl
-      | _ => rfl
-    rw [hv]
-    apply ih _ _ _ _ hrest
-    -- the relation after the step
+    -- an expired request is fresh
     have hexp : ∀ id ∈ SerialC12.expiredOf op, id ∉ seen ∧ Serial.isReq op = some id := by
       intro id hid
       cases op with
@@ -885,9 +962,45 @@ theorem specGo_ok : ∀ (ops : List Serial.Op) (a : SerialC12.Acc) (s : Serial.S
           simp only [SerialC12.expiredOf, List.mem_singleton] at hid; subst hid
           simp only [Serial.enabled, Bool.not_eq_true', List.contains_eq_mem, decide_eq_false_iff_not] at hen
           exact ⟨hen, rfl⟩
+        | pastBlock =>
+          simp only [SerialC12.expiredOf, List.mem_singleton] at hid; subst hid
+          simp only [Serial.enabled, Bool.not_eq_true', List.contains_eq_mem, decide_eq_false_iff_not] at hen
+          exact ⟨hen, rfl⟩
         | none => simp [SerialC12.expiredOf] at hid
         | future => simp [SerialC12.expiredOf] at hid
       | _ => simp [SerialC12.expiredOf] at hid
+    -- nothing of the request just issued is written in the operation that issues it
+    have hnew : ∀ id, Serial.isReq op = some id →
+        ¬ id ∈ (Serial.obsOf (Serial.stepOut s op).1 (Serial.stepOut s op).2).sent := by
+      intro id hreq hid
+      obtain ⟨t, ht, hte, _⟩ := hsent id hid
+      have hs := (hrel.r2 t ht).1
+      have hfresh : id ∉ seen := by
+        cases op <;> simp [Serial.isReq] at hreq
+        subst hreq
+        simpa [Serial.enabled] using hen
+      rw [hte] at hs; exact hfresh hs
+    -- this step's verdict
+    have hv : SerialC12.specObs a op (Serial.obsOf (Serial.stepOut s op).1 (Serial.stepOut s op).2) = .ok := by
+      unfold SerialC12.specObs
+      have h1 : (Serial.obsOf (Serial.stepOut s op).1 (Serial.stepOut s op).2).sent.find?
+          (fun id => a.timedOut.contains id) = none := by
+        rw [List.find?_eq_none]
+        intro id hid
+        obtain ⟨t, ht, rfl, hph⟩ := hsent id hid
+        simpa using (hrel.r2 t ht).2 hph
+      rw [h1]
+      cases op with
+      | req id dl =>
+        cases dl with
+        | past r => simp [hnew id rfl]
+        | pastBlock => simp [hnew id rfl]
+        | none => rfl
+        | future => rfl
+      | _ => rfl
+    rw [hv]
+    apply ih _ _ _ _ hrest
+    -- the relation after the step
     constructor
     · intro id hid
       simp only [SerialC12.Acc.after, List.mem_append] at hid
@@ -896,7 +1009,7 @@ theorem specGo_ok : ∀ (ops : List Serial.Op) (a : SerialC12.Acc) (s : Serial.S
         cases h : Serial.isReq op <;> simp [this]
       · rw [(hexp id hid).2]; simp
       · obtain ⟨_, hor⟩ := timeout_ends s op id hid
-        rcases hor with ⟨t, ht, rfl⟩ | ⟨r, rfl, _⟩
+        rcases hor with ⟨t, ht, rfl⟩ | ⟨dl, rfl, _⟩
         · have := (hrel.r2 t ht).1
           cases h : Serial.isReq op <;> simp [this]
         · simp [Serial.isReq]
@@ -908,30 +1021,23 @@ theorem specGo_ok : ∀ (ops : List Serial.Op) (a : SerialC12.Acc) (s : Serial.S
       have hto : SerialC12.timeoutsIn (Serial.obsOf (Serial.stepOut s op).1 (Serial.stepOut s op).2).dels = [] := by
         rw [List.eq_nil_iff_forall_not_mem]; intro id hid; exact hnone id hid
       simp only [SerialC12.Acc.after, hto, List.append_nil]
-      rcases processing_origin s op t' ht' with ⟨t, ht, hte⟩ | ⟨dl, rfl, hpn⟩
+      rcases processing_origin s op t' ht' with ⟨t, ht, hte, hphase⟩ | ⟨dl, rfl, hpn, hexpd⟩
       · obtain ⟨h1, h2⟩ := hrel.r2 t ht
         rw [← hte]
         refine ⟨?_, ?_⟩
         · cases h : Serial.isReq op <;> simp [h1]
-        · intro hin
+        · intro hph hin
           rcases List.mem_append.mp hin with hin | hin
-          · exact h2 hin
+          · exact h2 (hphase hph) hin
           · exact (hexp _ hin).1 h1
       · simp only [Serial.enabled, Bool.not_eq_true', List.contains_eq_mem, decide_eq_false_iff_not] at hen
         refine ⟨by simp [Serial.isReq], ?_⟩
-        intro hin
+        intro hph hin
         rcases List.mem_append.mp hin with hin | hin
         · exact hen (hrel.r1 _ hin)
-        · -- an expired request is answered at once: it cannot be the transaction now in flight
-          cases dl with
-          | past r =>
-            obtain ⟨cs, so, ores, pr⟩ := s
-            simp only at hpn; subst hpn
-            cases so <;> cases r <;>
-              simp [Serial.stepOut, Serial.St.request, Serial.St.txnTimeout, Serial.St.fault] at ht' <;>
-              (try (split at ht' <;> simp at ht'))
-          | none => simp [SerialC12.expiredOf] at hin
-          | future => simp [SerialC12.expiredOf] at hin
+        · -- an expired request is answered at once or blocked in the re-connect: it is not a
+          -- transaction that can still write
+          exact hph (hexpd (List.ne_nil_of_mem hin))
 
 end SerialSpec
 
